@@ -481,8 +481,12 @@ feederLoop:
 					child.responseResult = errTimedOut
 					child.broker.acks.Done()
 				remainingLoop:
-					for _, msg = range msgs[i:] {
-						child.interceptors(msg)
+					for n, remaining := range msgs[i:] {
+						msg = remaining
+						if n > 0 {
+							// msgs[i] went through the interceptors before the select above
+							child.interceptors(msg)
+						}
 						select {
 						case child.messages <- msg:
 						case <-child.dying:
